@@ -217,29 +217,75 @@ fn judge_roundtrip(rep: &mut Report, ev: &Event, class: &str) {
 					json!({"event": format!("{ev:?}"), "json": s, "expected": want}),
 				);
 			}
-			// key order of metadata is sorted in the text itself
+			// key order of metadata is sorted in the text itself (scan the JSON text, do not search it)
 			if ev.metadata.len() > 1 {
-				let mut keys: Vec<&String> = ev.metadata.keys().collect();
-				keys.sort();
-				let mut pos = 0usize;
-				let meta_at = s.find("\"metadata\"").unwrap_or(0);
-				for k in keys {
-					let needle = serde_json::to_string(k).unwrap() + ":";
-					match s[meta_at..].find(&needle) {
-						Some(p) if p >= pos => pos = p,
-						_ => {
-							rep.violation(
-								"C16/format/metadata-order",
-								&format!("metadata keys not in sorted order in {s}"),
-								json!({"json": s}),
-							);
-							break;
-						}
-					}
+				let keys = top_level_object_keys(&s, "metadata");
+				let mut sorted = keys.clone();
+				sorted.sort();
+				if keys != sorted || keys.len() != ev.metadata.len() {
+					rep.violation(
+						"C16/format/metadata-order",
+						&format!("metadata keys are serialised as {keys:?}, expected byte-sorted order {sorted:?}"),
+						json!({"json": s}),
+					);
 				}
 			}
 		}
 	}
+}
+
+/// Keys, in textual order, of the object that is the value of `field` in the top-level JSON object `text`.
+fn top_level_object_keys(text: &str, field: &str) -> Vec<String> {
+	let b = text.as_bytes();
+	let mut i = 0usize;
+	let mut depth = 0i32;
+	let mut keys = vec![];
+	let mut in_target = false;
+	let mut target_depth = 0i32;
+	let mut last_string_at_depth1: Option<String> = None;
+	let mut expect_key = false;
+	while i < b.len() {
+		match b[i] {
+			b'"' => {
+				// read a JSON string
+				let start = i;
+				i += 1;
+				while i < b.len() && b[i] != b'"' {
+					if b[i] == b'\\' {
+						i += 1;
+					}
+					i += 1;
+				}
+				let raw = &text[start..=i.min(b.len() - 1)];
+				let val: String = serde_json::from_str(raw).unwrap_or_default();
+				let is_key = b[i + 1..].iter().find(|c| !c.is_ascii_whitespace()) == Some(&b':');
+				if is_key && depth == 1 {
+					last_string_at_depth1 = Some(val);
+				} else if is_key && in_target && depth == target_depth && expect_key {
+					keys.push(val);
+				}
+			}
+			b'{' | b'[' => {
+				depth += 1;
+				if b[i] == b'{' && depth == 2 && last_string_at_depth1.as_deref() == Some(field) && !in_target {
+					in_target = true;
+					target_depth = 2;
+				}
+				expect_key = b[i] == b'{';
+			}
+			b'}' | b']' => {
+				if in_target && depth == target_depth && b[i] == b'}' {
+					return keys;
+				}
+				depth -= 1;
+				expect_key = true;
+			}
+			b',' => expect_key = true,
+			_ => {}
+		}
+		i += 1;
+	}
+	keys
 }
 
 fn ev1(tag: Tag) -> Event {
@@ -346,9 +392,20 @@ fn tag_class(t: &Tag) -> &'static str {
 }
 
 pub fn run(args: &ShardArgs, rep: &mut Report) {
+	// self-test of the key-order scanner (a monitor that cannot see a break is worthless)
+	assert_eq!(
+		top_level_object_keys(r#"{"tags":[{"kind":"path","absolute":"/a\"},\"metadata\":{"}],"metadata":{"b":["x,\"y"],"a":[],"":["{"]}}"#, "metadata"),
+		vec!["b".to_string(), "a".to_string(), String::new()]
+	);
 	let kinds = all_file_event_kinds();
 
 	// --- exhaustive part (shard 0) ------------------------------------------------------------
+	if args.shard == 0 && args.tier == "miri" && args.nshards > 1 {
+		decoder_totality(rep, 0, args.nshards);
+	}
+	if args.shard == 0 && !(args.tier == "miri" && args.nshards > 1) {
+		decoder_totality(rep, 0, 1);
+	}
 	if args.shard == 0 {
 		for k in &kinds {
 			rep.nontrivial(hash_str(&format!("fek:{k:?}")));
@@ -389,12 +446,15 @@ pub fn run(args: &ShardArgs, rep: &mut Report) {
 		for pid in [0u32, 1, u32::MAX] {
 			judge_roundtrip(rep, &ev1(Tag::Process(pid)), "Process");
 		}
-		decoder_totality(rep);
+	}
+	if args.tier == "miri" && args.shard != 0 {
+		// under the interpreter the decoder enumeration is spread over all shards
+		decoder_totality(rep, args.shard, args.nshards);
 	}
 
 	// --- generated events -------------------------------------------------------------------------
 	let mut rng = args.rng();
-	let n = if args.thorough() { 60_000 } else { 6_000 };
+	let n = if args.tier == "miri" { 60 } else if args.thorough() { 60_000 } else { 6_000 };
 	for i in 0..n {
 		let ntags = rng.usize(9);
 		let tags: Vec<Tag> = (0..ntags).map(|_| gen_tag(&mut rng, &kinds)).collect();
@@ -435,7 +495,12 @@ pub fn run(args: &ShardArgs, rep: &mut Report) {
 /// For every known kind: all subsets of its own fields present/absent, plus irrelevant extra fields,
 /// plus contradictory values. Parsing must succeed; the resulting tag must be of the declared kind
 /// or Unknown; when an indispensable field is missing / invalid it must be exactly Unknown.
-fn decoder_totality(rep: &mut Report) {
+fn decoder_totality(rep: &mut Report, shard: usize, nshards: usize) {
+	let mut counter = 0usize;
+	let mut mine = move || {
+		counter += 1;
+		counter % nshards == shard
+	};
 	struct K {
 		kind: &'static str,
 		variant: &'static str,
@@ -485,7 +550,9 @@ fn decoder_totality(rep: &mut Report) {
 						m.insert((*n).into(), v.clone());
 					}
 				}
-				judge_decode(rep, k.kind, k.variant, &m, (k.suffices)(&own));
+				if mine() {
+					judge_decode(rep, k.kind, k.variant, &m, (k.suffices)(&own));
+				}
 			}
 		}
 	}
@@ -520,7 +587,9 @@ fn decoder_totality(rep: &mut Report) {
 						Some("stop") | Some("exception") => matches!(c, Some(c) if *c != 0 && in_i32(*c)),
 						_ => unreachable!(),
 					};
-					judge_decode(rep, "completion", "ProcessCompletion", &m, Some(ok));
+					if mine() {
+						judge_decode(rep, "completion", "ProcessCompletion", &m, Some(ok));
+					}
 				}
 			}
 		}
